@@ -60,6 +60,7 @@ pub const COMMON_PROBES: &[(usize, &str)] = &[
     (C_BLOCK_MUTEX, "blocked_on_mutex"),
     (C_SPIN_POINTS, "spin_or_yield_points"),
     (C_WAKE_EAGAIN, "fault:wake_found_pipe_full"),
+    (C_SYS_EINTR, "fault:blocking_recv_interrupted_EINTR"),
     (C_HB_CHECKS, "happens_before_checks_at_free"),
     (C_DELIVERIES, "deliveries_dispatched_to_a_handler"),
     (C_DELIVER_DEFAULT, "deliveries_with_default_or_ignore_disposition"),
@@ -111,6 +112,8 @@ pub const E_GEN_FLIP_CHECKS: usize = C_ENGINE_BASE + 36;
 pub const E_CONCURRENT_ADD: usize = C_ENGINE_BASE + 37;
 pub const E_FOREIGN_INSTALL: usize = C_ENGINE_BASE + 38;
 pub const E_LONG_STALL: usize = C_ENGINE_BASE + 39;
+pub const E_ITER_FULL_PIPE: usize = C_ENGINE_BASE + 40;
+pub const E_ITER_REACTOR_TURNS: usize = C_ENGINE_BASE + 41;
 
 pub const REG_REAL: &[&str] = &[
     "signal-hook-registry (half_lock.rs, lib.rs): real code from /repo",
